@@ -111,7 +111,8 @@ def reactStep (rec : World → Nat → Bool → List Byte → WR) (w : World) (b
       andThen (stepAt w b .popReact) fun w2 =>
         match t with
         | .nop => (w2, [], true)
-        | .err => (w2, [], false)
+        -- receive_snoop runs under safe_apply (fix 4a7340a): the error ends the snooper's receive_snoop and nothing else
+        | .err => (w2, [], true)
         | .echo => if interactiveU w2 b then rec w2 b false (d.take 2000) else (w2, [], true)
         | .tell j => if interactiveU w2 j then rec w2 j false (tellText b j) else (w2, [], true)
         | .dest j => if interactiveU w2 j then (let r := stepAt w2 j .closeQ; (r.1, r.2, true)) else (w2, [], true)
